@@ -280,6 +280,12 @@ def run_threads(job, res):
                     cases.append((f"1;{c};{t};0;{s_};{p}", v))
     rng.shuffle(cases)
     cases = cases[:1500]
+    # the same few rules again and again from all threads at once (rules built from composite validators that the const
+    # tables share between all schemas: config, battery level, percentages, binary values)
+    hot = [(f"1;255;3;0;6;{p}", v) for v in spec.VERSIONS for p in ("I", "M")] + [("1;255;3;0;0;55", v) for v in spec.VERSIONS] \
+        + [("1;1;1;0;2;1", v) for v in spec.VERSIONS] + [("1;1;1;0;3;50", v) for v in spec.VERSIONS]
+    cases += hot * 25
+    rng.shuffle(cases)
     base = {}
     for line, v in cases:
         r = lib_validate(line, v)
@@ -297,14 +303,16 @@ def run_threads(job, res):
                     diffs.append((line, v, base[(line, v)], r))
 
     old = sys.getswitchinterval()
-    sys.setswitchinterval(1e-5)
+    sys.setswitchinterval(1e-6)
+    counts.append(0)
     try:
-        a = threading.Thread(target=worker, args=(0, cases))
-        b = threading.Thread(target=worker, args=(1, list(reversed(cases))))
-        a.start()
-        b.start()
-        a.join(600)
-        b.join(600)
+        third = cases[len(cases) // 2:] + cases[:len(cases) // 2]
+        ts = [threading.Thread(target=worker, args=(0, cases)), threading.Thread(target=worker, args=(1, list(reversed(cases)))),
+              threading.Thread(target=worker, args=(2, third))]
+        for t in ts:
+            t.start()
+        for t in ts:
+            t.join(600)
     finally:
         sys.setswitchinterval(old)
     res.evals += sum(counts)
